@@ -14,6 +14,8 @@ import (
 	"fmt"
 	"io"
 	"net"
+	"os"
+	"path/filepath"
 	"runtime"
 	"runtime/debug"
 	"strings"
@@ -416,6 +418,25 @@ func archiveTour(res *core.Result, r *core.RNG, preRegistered bool) (*sim, error
 			}
 		}
 		break
+	}
+	// the key file is not there while the server runs (botched clean-up or restore): no archive can be
+	// assembled.  The request must not create a key file, and must not answer with an archive whose
+	// server.pubkey is another key than the one that signed the archived statistics
+	kp := filepath.Join(w.Dir, "server.keys")
+	if orig, err := os.ReadFile(kp); err == nil && os.Rename(kp, kp+".away") == nil {
+		time.Sleep(window)
+		rr := w.Raw("GET", "/api/v1/archive", nil)
+		res.Count("archive.key-file-missing")
+		if nb, err := os.ReadFile(kp); err == nil && !bytes.Equal(nb, orig) {
+			s.fail("an archive request made while server.keys was missing created a new key file (the server keeps signing with the key it holds; after a restart the statistics on disk are orphaned)", "c14-key-file-created")
+		}
+		if rr.Status == 200 {
+			if files, _, err := unzip(rr.Body); err == nil && len(orig) >= 32 && !bytes.Equal(files["server.pubkey"], orig[:32]) {
+				s.fail("an archive served while server.keys was missing carries a server.pubkey that is not the key the server signs with: the archived statistics do not verify under it", "c14-pubkey")
+			}
+		}
+		os.Remove(kp)
+		os.Rename(kp+".away", kp)
 	}
 	time.Sleep(window)
 	s.archiveOnce(nil, "final")
